@@ -192,3 +192,92 @@ func opaqueFamily(sum *Summary, site string) {
 		}
 	}
 }
+
+// ---- a fault in every argument position of every built-in (added after measuring which statements of the
+// library no stream executed: the error returns after each argument evaluation, and the error returns inside the
+// loops that apply an expression reference to the first and to a later element) ----
+
+type argFault struct {
+	expr string
+	doc  any
+	want string // the category the outcome must have
+	fn   string
+}
+
+var faultExprs = []struct{ text, cat string }{
+	{"$u_", "CUndefinedVariable"},
+	{"(`1` / `0`)", "CNotANumber"},
+	{"abs('x')", "CInvalidType"},
+	{"pad_left('', `-1`)", "CInvalidValue"},
+}
+
+func argFaultFamily() []argFault {
+	var out []argFault
+	lit := func(t string) string {
+		switch {
+		case strings.Contains(t, "number"):
+			return "`2`"
+		case t == "string":
+			return "'ab'"
+		case strings.Contains(t, "array"):
+			return "`[1, 2]`"
+		case t == "object":
+			return "`{\"a\": 1}`"
+		}
+		return "`[3]`"
+	}
+	for _, f := range sigs {
+		maxA := len(f.args)
+		hi := maxA
+		if f.vary {
+			hi = 3
+		}
+		for n := f.min; n <= hi; n++ {
+			typ := func(j int) string {
+				if j < len(f.args) {
+					return f.args[j]
+				}
+				return f.args[0]
+			}
+			build := func(sub map[int]string) string {
+				parts := make([]string, n)
+				for j := 0; j < n; j++ {
+					s, ok := sub[j]
+					if !ok {
+						s = lit(typ(j))
+						if typ(j) == "&" {
+							s = "&@"
+						}
+					} else if typ(j) == "&" {
+						s = "&" + s
+					}
+					parts[j] = s
+				}
+				return f.name + "(" + strings.Join(parts, ", ") + ")"
+			}
+			for pos := 0; pos < n; pos++ {
+				for k, fe := range faultExprs {
+					out = append(out, argFault{build(map[int]string{pos: fe.text}), nil, fe.cat, f.name})
+					// two faults: the earlier argument decides (expression references are applied after all
+					// arguments have been evaluated, so a reference never decides against a plain argument)
+					for pos2 := pos + 1; pos2 < n; pos2++ {
+						fe2 := faultExprs[(k+1)%len(faultExprs)]
+						want := fe.cat
+						if typ(pos) == "&" && typ(pos2) != "&" {
+							want = fe2.cat
+						}
+						out = append(out, argFault{build(map[int]string{pos: fe.text, pos2: fe2.text}), nil, want, f.name})
+					}
+				}
+			}
+		}
+	}
+	// the expression reference fails on the first, a middle or the last element only
+	for _, f := range []string{"sort_by(@, &abs(@))", "max_by(@, &abs(@))", "min_by(@, &abs(@))", "group_by(@, &to_string(abs(@)))", "map(&abs(@), @)",
+		"sort_by(@, &ceil(@))", "max_by(@, &floor(@))", "min_by(@, &-@ * `1` / @)", "map(&(`1` / @), @)", "sort_by(@, &`1` / @)", "max_by(@, &`1` % @)", "min_by(@, &`1` // @)"} {
+		for _, d := range []string{`["x", 1, 2, 3]`, `[1, 2, "x", 3]`, `[1, 2, 3, "x"]`, `[0, 1, 2]`, `[1, 0, 2]`, `[1, 2, 0]`, `[3, 1, 2]`, `[1, null]`, `[[1], 2]`} {
+			out = append(out, argFault{f, jsonDoc(d), "", f[:strings.Index(f, "(")]})
+		}
+	}
+	return out
+}
